@@ -56,6 +56,16 @@ def run_doc(ctx: Ctx, it: dict) -> None:
                 mode = MODES[k % len(MODES)]
                 inst = instgen.named(rng, name, d.sexp, mode)
                 rts.append({"id": f"{name}-{k}", "model": name, "json": inst, "_mode": mode})
+    # the converter registers hooks lazily on first use of each class (process-global state): vary the first-use order.
+    # Referrers before the models they contain is the order a real client meets (a response model is decoded first).
+    if it.get("roundtrips") is None:
+        order_mode = rng.choice(["referrers_first", "referrers_first", "random", "declaration"])
+        rec.seen("first_use_orders", order_mode)
+        if order_mode == "referrers_first":
+            names = list(d.sexp)
+            rts.sort(key=lambda r: -names.index(r["model"]))
+        elif order_mode == "random":
+            rng.shuffle(rts)
     job = {"root": str(root), "packages": [{"pkg": pkg, "core": pkg + ".core"}], "actions": ["roundtrips"],
            "roundtrips": [{k: v for k, v in r.items() if not k.startswith("_")} for r in rts]}
     out = genrun.run_probe(job, root / "probe")
